@@ -9,61 +9,61 @@ BASE = 'cd /repo && /venv/bin/python -m pytest -ra -q -p no:cacheprovider --time
 
 # id -> (technique, level text, level note, design ref)
 P = {
- 'C01': ('AST def-use/provenance chains from the KEXINIT/SSH-1 parse slots to every text and JSON emit point; order/multiset-preservation lint on the path',
+ 'C01': ('abstract interpretation of the AST (finite scenario families over symbolic name tokens; nothing executed): SSH2_Kex.parse / constructors / accessors and the SSH-1 mask decoders (which read reaches which accessor), output() and build_struct (which list feeds which section / JSON list), the per-name renderer (every name gets its line); provenance / alias scan for in-place edits of parsed lists over the call graph',
          'Decides the provenance clause: in both renderings each category shows exactly the parsed list for that category, unfiltered, in order (slot agreement in parse/constructor/getters; render table; identity-only transformations). Static, so it holds for every payload and role; byte-level splitting and the rendered text are not decided.',
          'Trusts ast; rule tables (category<->accessor) confirmed against RFC 4253 7.1; does not decide ReadBuf.read_list byte splitting.', '4/C01'),
- 'C02': ('truth-table extraction of the status fold, def-use threading check, CFG dominance of the parse on every non-error return of audit()',
+ 'C02': ('abstract interpretation of the per-name renderer (severity fold over every row shape x incoming status x presentation state), of output_algorithms and output() (status threading), of Policy.evaluate (verdict component); backward slices for option independence; CFG reachability of parse-free returns of audit(); symbolic byte budget for truncated messages',
          'Decides: the fold is max over GOOD<WARNING<FAILURE (9-row table extracted from the guards), the status is threaded through every category and returned unchanged, it has no dependence on output options, every exit of audit() not dominated by a successful parse returns CONNECTION_ERROR and renders no algorithm report, and the policy verdict maps to GOOD/FAILURE.',
          'Trusts ast and the hand-built CFG; tag text vs level correspondence is by shared loop variable only.', '4/C02'),
- 'C03': ('backward slices of the notes computation, sibling cross-check of name-matching sites against wildcard rows of the table, alias/mutation inventory of the rating table',
+ 'C03': ('abstract interpretation of the text and JSON note lookups on a synthetic rating table (levels, unknown names, agreement of the views); backward slice for locality; alias / mutation inventory of the rating-table writers over all functions; per-thread registry by interpretation; loop-carried dependence on the CFG of the host-key probe',
          'Decides locality (notes depend only on category, name, table row), single table source and key normalisation agreement across text/JSON/lookup, unknown-never-good, and the complete inventory of writers of the rating table.',
          'Trusts the resolver (by-name over-approximation for untyped receivers) and the frozen writer table.', '4/C03'),
- 'C04': ('exhaustive truth tables of post_process_findings guards over role x marker x chacha x cbc x etm; predicate sibling agreement; who-may-call of the warning adder',
+ 'C04': ('abstract interpretation of post_process_findings and its nested helpers on an object model of the parsed message: decision table over role x strict-kex marker x ChaCha x CBC x ETM (warnings read from the resulting table), totality by crash detection on unknown names; who-may-call over the call graph; registry model',
          'Decides the complete Terrapin decision table, predicate agreement between enabled/not-enabled helpers and database names, suppression-list flow into both recommendation paths, and totality of the table subscript on peer-supplied names.',
          'Published rule = the tool\'s shape predicates (stated in DESIGN); advisory note wording not decided.', '4/C04'),
- 'C05': ('writer/reader/evaluator agreement for the policy file format (template lines vs constructor dispatch vs evaluate accessors), separator-safety lint against the database alphabet, exhaustive data checks of built-in policies',
+ 'C05': ('writer / reader agreement of the policy template against the loader dispatch; abstract interpretation of Policy.evaluate on a drift table (one attribute perturbed at a time) and of the size-map normaliser; separator-safety lint against the database alphabet; interpretation of the host-key blob walk for CA capture; constant evaluation of built-in policies',
          'Decides format-key agreement, separator safety for every name the database can produce, exact-mode comparisons per covered attribute, and satisfiability conditions of all built-in policies.',
          'Round trip of names outside RFC 4251 alphabet not decided.', '4/C05'),
- 'C06': ('CFG pairing of verdict and error sites, truth/ordering tables of every comparison in Policy.evaluate over flags x orderings',
+ 'C06': ('abstract interpretation of Policy.evaluate (helper methods and the error recorder in place) over 6 policy states x ~90 peers x 4 flag combinations, compared with an executable statement of the documented matching rules (verdict, reported fields, record contents, pairing, monotonicity); call-graph freshness of the error accumulator',
          'Decides verdict<=>error pairing at every site, the per-field decision tables for exact/subset/larger-keys modes (direction of subset test, strict-kex exception, size orderings), error contents (expected/actual not crossed) and the syntactic form that implies monotonicity.',
          'Text of the rendered Errors block not decided.', '4/C06'),
- 'C07': ('inventory of long-lived mutable state + alias-tracked writer set reachable from the worker, typestate (acquire/release of the per-thread table) on the worker CFG',
+ 'C07': ('inventory of long-lived mutable state + alias-tracked writer set reachable from the pool task (call graph); per-thread registry by abstract interpretation of get_db / thread_exit; typestate (acquire / release) on the worker CFG; copy-hook depth analysis',
          'Decides state confinement: every write reachable from a scan goes to objects created in the task or to the per-thread table keyed by thread id, the table is released on every exit of the pool task, and configuration/output objects are task-owned. Holds for all schedules because it is about which objects can be shared.',
          'Assumes CPython atomic dict item ops; byte equality of outputs not decided.', '4/C07'),
- 'C08': ('exception-escape analysis of the worker entry over the resolved call graph (incl. SystemExit), constant evaluation of the rank list, CFG check of the print loop',
+ 'C08': ("exception-escape analysis of the worker entry over the resolved call graph (incl. SystemExit); constant evaluation of the rank list; abstract interpretation of main()'s multi-target loop (status fold over all status triples, block structure of the printed sequence); reachable-flush rule over the call graph",
          'Decides: nothing but a normal return can leave a worker task, every returnable status is ranked and the fold is max by rank, one print per future with well-formed array delimiters, JSON provenance of worker text.',
          'Trusts the partial-operation table and resolver; real stdout interleaving not decided.', '4/C08'),
- 'C09': ('exception-escape fixed point over the call graph with a repo-specific partial-operation table; loop-bound classification; timeout pairing',
+ 'C09': ('exception-escape fixed point over the call graph with a repo-specific partial-operation table; path-condition facts incl. conditional expressions and short-circuit operands (implied atoms) and a CFG must-analysis for non-emptiness; loop-bound classification; timeout finiteness; symbolic byte budget of read_packet',
          'Decides the crash clause structurally (which exception classes can escape audit() from peer-driven partial operations, with witness chains), probe isolation, timeout presence on every wait and bounds on peer-driven loops.',
          'Wall-clock and memory bounds not decided; partial-operation table is hand-confirmed.', '4/C09'),
- 'C10': ('sibling agreement of writer/reader codec sequences, constant comparison of struct formats, residue-exhaustive evaluation of the padding expression',
+ 'C10': ('abstract interpretation round trip of the KEXINIT and SSH-1 key messages on an object model (parse on read tokens -> object -> write: token by token, codec by codec); linear-form reader model of read_packet per protocol version; struct-format pairing by constant comparison; residue-exhaustive evaluation of the padding expression; typestate (holds bytes) for write_string',
          'Decides field order/codec agreement of KEXINIT and SSH-1 key message writers vs parsers, primitive format pairs, word composition signedness of the mpint reader, and framing arithmetic for all payload lengths (periodic in 8).',
          'Value-level round trips are not claimed.', '4/C10'),
- 'C11': ('interval-partition abstract evaluation of the size guards, record-field agreement across writers/readers, fingerprint sibling agreement',
+ 'C11': ("abstract interpretation of the whole host-key probe (HostKeyTest.perform_test, no-exception path) over boundary sizes x key kinds x CA kinds: what lands in the rating table and the host-key record; CFG must-assignment of the key-exchange object's measurement fields; interpretation of the host-key blob walk per layout",
          'Decides the rating thresholds (fail <2048, warn <3072, none otherwise; antitone), where the rating lands (rows, RSA family), record key agreement and fingerprint source agreement between text and JSON.',
          'Measured sizes/fingerprint values not decided.', '4/C11'),
- 'C12': ('ordering evaluation of GEX thresholds, dominance of the >0 guard over the size record, literal probe-sequence checks',
+ 'C12': ('abstract interpretation of GEXTest.run against 4096+ server moduli policies and fixed-modulus boundary servers (recorded size, rating rows, fallback note), of _send_init (request, reply, then measure), of post_process_findings (OpenSSH 2048 note / suppression table); CFG dominance in send_init_gex',
          'Decides thresholds, size-only-when-measured guard structure, fixed probe sequence and OpenSSH second-pass wiring, and the 2048 note/suppression truth table.',
          'Smallest-modulus-for-every-server-policy not decided.', '4/C12'),
- 'C13': ('exhaustive truth table of the recommendation branches, severity mapping constants, name-matching agreement with renderers, suppression flow',
+ 'C13': ('abstract interpretation of Algorithms.get_recommendations and get_algorithm_recommendations on a synthetic rating table x peers x identified / unidentified software, compared with an executable statement of the documented rule (add / del / chg, points, levels, suppression); suppression-list contents by interpretation of post_process_findings',
          'Decides the add/del/chg branch table, faults = rows the report rates with weights 10/1 and the critical mapping, name matching agreement for wildcard categories, unknown-software handling and suppression.',
          'Rendering of (rec) lines not decided.', '4/C13'),
- 'C14': ('provenance-typed lint: ordering comparisons on version strings must pass through a numeric key',
+ 'C14': ('provenance-typed lint: every ordering comparison on version strings passes through a numeric key; abstract evaluation of the comparison stages; regex split automata for the version patterns; availability gate by the recommendation model with a numerically ordered software object',
          'Decides that every older/same/newer judgement on version strings is computed on numeric component tuples (hence a total order consistent with numeric comparison), and that patch ordering is only reached after numeric equality.',
          'Malformed version strings not decided.', '4/C14'),
- 'C15': ('non-interference slices for findings/status vs presentation options, guard analysis of the level filter, CFG check of the single JSON emission, determinism lint',
+ 'C15': ('abstract interpretation of the per-name renderer (status / unknown list identical under every presentation state; every note printed), of OutputBuffer._print / reset / get_level (level filter table); backward slices of the status chain; CFG check of the single JSON emission; determinism lint',
          'Decides: findings and status do not depend on presentation options, the level filter only drops, one json.dumps(sort_keys) document per scan with nothing emitted after it, no unguarded immediate writes in JSON mode, no hash-order iteration on the audit path.',
          'Byte identity of real runs not decided.', '4/C15'),
- 'C16': ('regular-language inclusion on automata built from the regex AST (re._parser), sanitise-before-match ordering, CFG of the banner loop',
+ 'C16': ('regular-language inclusion on automata built from the regex AST (re._parser); abstract interpretation of Banner.parse on a family of identification lines (constant patterns applied with the re module) and of the printable-ASCII helpers; CFG of the banner loop (complete-line rule, header separation); product-pattern automata',
          'Decides acceptance: L(banner grammar) is included in L(RX_BANNER) over printable ASCII (with counter-example otherwise), both ASCII filters agree, header/banner separation, product table shape.',
          'Captured parts vs grammar parts not decided.', '4/C16'),
- 'C17': ('exhaustive enumeration of literal tables with a constant evaluator over the AST',
+ 'C17': ('exhaustive enumeration of literal tables with a constant evaluator over the AST (cross-references, shapes, broken primitives), built-in policy sizes pushed through the host-key probe model',
          'Decides the whole property: its quantifier is the tables as they stand in the tree, all of which are literals read from source: shape, cross-references, no policy admits a failure, broken primitives failed under every spelling.',
          'Trusts the frozen broken-primitive token table (confirmed row by row).', '4/C17'),
- 'C18': ('def-use provenance chain from written target to getaddrinfo/connect and to the labels; ordering evaluation of port guards; sibling agreement of the two resolvers',
+ 'C18': ('abstract interpretation of main() (each targets-file entry -> the (host, port) its task receives), of output() / evaluate_policy / build_struct (target labels), of the argparse stores (option order); def-use provenance from the stored target to getaddrinfo / connect; ordering evaluation of port guards; sibling agreement of the two resolvers',
          'Decides the dial and label provenance chains, port-range guards at all three sites, targets-file normalisation check/use agreement, address-family selection table and agreement of the rate-test resolver.',
          'String-level parsing of every spelling not decided.', '4/C18'),
- 'C19': ('who-may-call + dominating-guard analysis for DoS features and KEX senders, literal loop bounds for connection counts, CFG open/close pairing',
+ 'C19': ('who-may-call + dominating-guard analysis for DoS features and KEX senders over the call graph; socket protocol of the host-key probe by abstract interpretation (connect, one request, close); CFG close pairing incl. exception edges on call-graph located probe loops; literal loop bounds for the static connection ceiling',
          'Decides which code may open connections / send KEX requests and under which guards, a static ceiling on connection-opening calls per scan, rate-test creation bounded by a counter, close pairing in probes.',
          'Run-time counts not decided.', '4/C19'),
 }
